@@ -811,3 +811,6 @@ func (c *VCheck) CompareInstant(truth, got *VInstant) {
 		}
 	}
 }
+
+// ChangePositions exposes the raw change-log positions to harnesses of other packages.
+func (h *VHist) ChangePositions(ds *Dataset) []uint64 { return h.changePositions(ds) }
